@@ -134,6 +134,7 @@ class Check:
                                  'Python analysers in /verif/jcsa', 'specification tables in /verif/spec',
                                  'instantiation drivers in /verif/drivers stand for the instantiations users get'],
                 'units': self.units,
+                'units_loaded': sorted(__import__('jcsa.frontend', fromlist=['x']).LOADED_UNITS),
                 'functions': len(self.functions_analysed),
                 'known_findings_reported': nknown,
                 'include_root': INCLUDE,
